@@ -54,3 +54,19 @@ Example C18_example :
   select (fun _ => true) true false None None None (Some [mkWord MORE 7; mkWord 9 8]) =
   Spawn less_word [ARaw; AQuit].
 Proof. vm_compute. reflexivity. Qed.
+
+(* Which differ `delta A B` starts.  The guard is translated from the source on every run
+   (GenDiffer.v): a git older than 2.42 — which would compare the link, not the content — is never
+   handed an operand that comes from process substitution; ordinary files always go to git; git from
+   2.42 on gets everything. *)
+From DV Require Import Differ GenDiffer DifferFacts.
+
+Theorem C18_old_git_never_gets_a_pipe : forall v pm pp,
+  version_ge v (2, 42)%N = false -> pm || pp = true -> code_use_git v pm pp = false.
+Proof. exact old_git_never_gets_a_pipe. Qed.
+
+Theorem C18_ordinary_files_use_git : forall v, code_use_git v false false = true.
+Proof. exact ordinary_files_use_git. Qed.
+
+Theorem C18_new_git_gets_everything : forall v pm pp, version_ge v (2, 42)%N = true -> code_use_git v pm pp = true.
+Proof. exact new_git_always. Qed.
